@@ -50,7 +50,7 @@ Definition m_writeCharacters : list iop := [OPte; OSetPreserve true; OContent; O
 Definition m_writeCDATA (fx : bool) : list iop :=
   [OPte; OSetPreserve true; OIndent; OCdataChars] ++ (if fx then [OSetPrevText true] else []).
 Definition m_writeParentTagEnd : list iop := [OIfMarkParent; OChar 62; OSetPrevText false; OPushPreserve].
-Definition m_charactersRaw : list iop := [OPte; OSetPreserve true; ORawChars].
+Definition m_charactersRaw (fx : bool) : list iop := [OPte; OSetPreserve true; ORawChars] ++ (if fx then [OSetPrevText true] else []).
 
 Definition amt (ind : option N) : N := match ind with Some n => n | None => 0 end.
 
@@ -347,6 +347,12 @@ Definition encode_spec (k : encoding_kind) (s : list N) : option (list N) :=
   if forallb (representable k) s then Some s else None.
 Definition ser_text (k : encoding_kind) (evs : list event) : list N :=
   flat_map (stream_encode_unit k) (ser_text_units evs).
+(* tx: the repaired FormatterToText::characters raises UnrepresentableCharacterException for a unit above
+   m_maxCharacter (GenOutopt.text_method_checks_representability says which one /repo has); None = the exception *)
+Definition ser_text_checked (tx : bool) (k : encoding_kind) (evs : list event) : option (list N) :=
+  if tx && negb (forallb (representable k) (ser_text_units evs)) then None else Some (ser_text k evs).
+Definition ser_text_as_coded (k : encoding_kind) (evs : list event) : option (list N) :=
+  ser_text_checked text_method_checks_representability k evs.
 
 (* ---- 5. option selection -------------------------------------------------------------------------- *)
 Inductive omethod : Type := MNone | MXml | MHtml | MText.
